@@ -89,6 +89,15 @@ RULE = ("ExtID: type strings (plain, empty, with space / newline, non-ASCII = re
         "ideographs, Hangul jamo, ligatures, EN QUAD, Greek question mark), every 12th case has one for sure; the manifest must carry "
         "it unchanged, and for such cases the TWIN object - the same object with that one field rewritten in another normalisation "
         "form - must have the documented manifest of ITS value, another manifest, another id, and compare unequal. "
+        "STATE BETWEEN CALLS: every case builds its object a second time after unrelated objects (memo probe: same id, manifest, "
+        "equal); every 10th metadata case additionally builds, one after the other in the same process, two objects from two "
+        "datetimes that are EQUAL AS PYTHON OBJECTS (== and hash) BUT DIFFERENT INSTANTS - the same wall-clock fields on one "
+        "zoneinfo / dateutil tzinfo object with fold=0 then fold=1 (and the reverse order) inside repeated hours (fixed table: "
+        "Europe/Paris 2020-10-25 02:30, America/New_York 2021-11-07 01:30, Australia/Lord_Howe 2021-04-04 01:45 ..., and the "
+        "fall-back transitions 1900-2100 of the DST zones found by the localtime scanner), a tzinfo whose offset depends on fold "
+        "only, a datetime subclass whose __eq__/__hash__ are coarser than the instant - each must be the object of ITS instant "
+        "(documented manifest, id, normalised second, equal to the same instant written in UTC) and two different seconds must "
+        "have different manifests and ids. "
         "non-trivial = at least one optional / context line; distinct = distinct case")
 TRUSTED = ["Python datetime arithmetic (aware datetime -> exact integer microseconds since the epoch, utcoffset) used to abstract a "
            "datetime as (epoch_us, offset_us)",
@@ -96,6 +105,8 @@ TRUSTED = ["Python datetime arithmetic (aware datetime -> exact integer microsec
            "bytes join/split/str(int) as modelled in lib/Headers.v, lib/Dec.v; hash_to_hex as lib/Hex.v hexlify",
            "lib/Sha1.v as an instance of the hash oracle (compared with hashlib on every case)",
            "MetadataAuthorityType values are literals of the model (no generated table); cross-checked against the enum on every run (pre_checks)",
+           "zoneinfo / dateutil utcoffset() with fold (PEP 495) give the two instants of a repeated wall-clock time; the harness derives "
+           "the instant as wall clock - utcoffset()",
            "os.environ['TZ'] + time.tzset() (glibc, /usr/share/zoneinfo) switch the local timezone of the process as a differently "
            "configured machine would; the harness' own date arithmetic uses only aware/naive datetime subtraction, never local time"]
 ASSUMPTIONS = ["text fields are surrogate-free (otherwise .encode() raises: outside the domain)",
@@ -382,6 +393,47 @@ def gen_alts(rng, us):
     return [[us, rng.choice(ZONES_US)], [same_sec, rng.choice(ZONES_US)], [other, rng.choice(ZONES_US)]]
 
 
+EQDIFF_CARRIERS = ["zoneinfo", "dateutil", "foldtz", "eqsubclass", "zoneinfo"]
+# repeated hours that must be in the stream whatever the scanner finds: (zone, naive wall clock inside the repeated interval)
+REPEATED_HOURS = [("Europe/Paris", _dt.datetime(2020, 10, 25, 2, 30)), ("America/New_York", _dt.datetime(2021, 11, 7, 1, 30)),
+                  ("Australia/Lord_Howe", _dt.datetime(2021, 4, 4, 1, 45)), ("Europe/London", _dt.datetime(2021, 10, 31, 1, 30)),
+                  ("America/St_Johns", _dt.datetime(2021, 11, 7, 1, 15, 0, 999999))]
+
+
+def gen_eqdiff(rng, j):
+    """two datetimes that are EQUAL AS PYTHON OBJECTS (== and hash) but different instants, to be used one after the other in
+    one process: the same wall-clock fields on one tzinfo object with fold=0 / fold=1 inside a repeated hour (PEP 495:
+    intra-zone comparison ignores fold), a tzinfo whose offset depends on fold only, a datetime subclass whose __eq__ / __hash__
+    are coarser than the instant"""
+    carrier = EQDIFF_CARRIERS[j % len(EQDIFF_CARRIERS)]
+    e = {"carrier": carrier, "order": [0, 1] if (j // len(EQDIFF_CARRIERS)) % 2 == 0 else [1, 0]}
+    if carrier in ("zoneinfo", "dateutil"):
+        if j % 3 == 0:
+            zone, w = REPEATED_HOURS[(j // 3) % len(REPEATED_HOURS)]
+            e["zone"], e["wall_us"] = zone, (w - EPOCH_NAIVE) // US
+        else:
+            zones = [z for z in _TZ_IANA_DST if z != "UTC"] or ["UTC"]
+            zone = zones[j % len(zones)]
+            back = [t for t in tz_transitions(zone) if t[2] < t[1] and (carrier == "zoneinfo" or 0 <= t[0] < 2114380800)]
+            if not back:
+                zone, w = REPEATED_HOURS[j % len(REPEATED_HOURS)]
+                e["zone"], e["wall_us"] = zone, (w - EPOCH_NAIVE) // US
+            else:
+                t, before, after = rng.choice(back)
+                delta = rng.choice([0, 1, (before - after) // 2, before - after - 1])
+                e["zone"] = zone
+                e["wall_us"] = (t + after + delta) * 10**6 + rng.choice([0, 1, 999999, rng.randrange(10**6)])
+    elif carrier == "foldtz":
+        e["wall_us"] = gen_instant(rng)
+        e["base_off_us"] = rng.choice([0, 3600 * 10**6, -5 * 3600 * 10**6, 19800 * 10**6])
+        e["fold_shift_us"] = rng.choice([3600 * 10**6, 1800 * 10**6, 10**6, 12 * 3600 * 10**6])      # |offset| stays below 24 h
+    else:
+        e["wall_us"] = gen_instant(rng)
+        e["base_off_us"] = rng.choice([0, 3600 * 10**6, -7 * 3600 * 10**6])
+        e["delta_us"] = rng.choice([10**6, 3600 * 10**6, 86400 * 10**6, -10**6, 61 * 10**6])
+    return e
+
+
 def gen_emd(rng, k):
     t, sub = COMBOS[k % len(COMBOS)]
     if k % 5 == 4:       # the enumeration is dominated by cnt/dir targets: every fifth case picks the target kind uniformly
@@ -500,6 +552,8 @@ def gen_emd(rng, k):
     if c["ttype"] == "ori" and "old_schema" not in c["routes"]:
         c["routes"][0] = "old_schema"       # origin targets: the old rows name the origin by its URL
     c["zi"] = _TZ_IANA_DST[k % len(_TZ_IANA_DST)] if _TZ_IANA_DST else None
+    if k % 10 == 3:
+        c["eqdiff"] = gen_eqdiff(rng, k // 10)
     if k % 13 == 12:
         # a datetime without a UTC offset: no tzinfo at all / a tzinfo carrier giving no offset (always, for some dates) / raising
         c["naive"] = NAIVE_KINDS[(k // 13) % len(NAIVE_KINDS)]
@@ -579,6 +633,8 @@ def classify(c):
         ks.append("emd:date-range-" + c["range_end"])
     if c.get("spliced"):
         ks.append("emd:source-token-spliced")
+    if c.get("eqdiff"):
+        ks.append("emd:equal-but-different-datetimes:%s:%s" % (c["eqdiff"]["carrier"], "".join(map(str, c["eqdiff"]["order"]))))
     if any(unicodedata.normalize("NFC", t) != t for t in [c["url"], c["name"], c["version"], c["format"], c["origin"] or ""]):
         ks.append("emd:text-not-NFC")
     if c.get("twin"):
@@ -749,6 +805,98 @@ def carrier_datetime(c, date):
     if n == "offset_sometimes":
         return w.replace(tzinfo=_TzSometimes(date[1]))
     return w.replace(tzinfo=_TzRaises())
+
+
+class _TzFold(_dt.tzinfo):
+    """a zone whose offset depends on `fold` only: every wall-clock time exists twice"""
+
+    def __init__(self, base_us=0, shift_us=3600 * 10**6):
+        self.base, self.shift = _dt.timedelta(microseconds=base_us), _dt.timedelta(microseconds=shift_us)
+
+    def utcoffset(self, d):
+        return self.base + (self.shift if d.fold == 0 else _dt.timedelta(0))
+
+    def dst(self, d):
+        return self.shift if d.fold == 0 else _dt.timedelta(0)
+
+    def tzname(self, d):
+        return "fold-zone"
+
+
+class _CoarseDT(_dt.datetime):
+    """a datetime subclass whose == and hash are coarser than the instant (all instances are equal and hash alike)"""
+
+    def __eq__(self, other):
+        return isinstance(other, _CoarseDT) or _dt.datetime.__eq__(self, other)
+
+    def __ne__(self, other):
+        return not self.__eq__(other)
+
+    def __hash__(self):
+        return 7
+
+
+def eqdiff_datetimes(e):
+    """[(datetime, instant in epoch microseconds)] x 2 in the order of the case, or None when the carrier does not tell the two
+    apart (then there is nothing to check).  The instants are wall clock - utcoffset(), computed here with timedelta arithmetic."""
+    w = EPOCH_NAIVE + _dt.timedelta(microseconds=e["wall_us"])
+    car = e["carrier"]
+    if car == "eqsubclass":
+        tz = _dt.timezone(_dt.timedelta(microseconds=e["base_off_us"]))
+        ws = [w, w + _dt.timedelta(microseconds=e["delta_us"])]
+        ds = [_CoarseDT(x.year, x.month, x.day, x.hour, x.minute, x.second, x.microsecond, tzinfo=tz) for x in ws]
+        if not (ds[0] == ds[1] and hash(ds[0]) == hash(ds[1])):
+            return None
+        both = [(d, (x - EPOCH_NAIVE) // US - e["base_off_us"]) for d, x in zip(ds, ws)]
+        return [both[i] for i in e["order"]]
+    if car == "zoneinfo":
+        import zoneinfo
+        tz = zoneinfo.ZoneInfo(e["zone"])
+    elif car == "dateutil":
+        from dateutil import tz as _dtz
+        tz = _dtz.gettz(e["zone"])
+        if tz is None:
+            return None
+    else:
+        tz = _TzFold(e["base_off_us"], e["fold_shift_us"])
+    ds = [w.replace(tzinfo=tz, fold=f) for f in (0, 1)]
+    offs = [d.utcoffset() for d in ds]
+    if None in offs or offs[0] == offs[1] or not (ds[0] == ds[1] and hash(ds[0]) == hash(ds[1])):
+        return None
+    both = [(d, e["wall_us"] - off // US) for d, off in zip(ds, offs)]
+    return [both[i] for i in e["order"]]
+
+
+def _eqdiff_run(c):
+    """build the object with the first datetime, then with the second (equal to the first as a Python object, another instant),
+    then each instant written in UTC"""
+    from swh.model import git_objects
+    try:
+        pair = eqdiff_datetimes(c["eqdiff"])
+    except Exception as e:
+        return {"skip": "carrier unavailable: " + exc_class(e)}
+    if pair is None:
+        return {"skip": "the carrier does not distinguish the two datetimes"}
+    out = {"us": [us for _, us in pair], "objs": [], "refs": []}
+    objs = []
+    for d, us in pair:
+        if not MIN_US <= us <= MAX_US:
+            return {"skip": "instant out of range"}
+        try:
+            o = _build_emd(c, c["date"], dt=d)
+            objs.append(o)
+            out["objs"].append({"id": o.id.hex(), "manifest": git_objects.raw_extrinsic_metadata_git_object(o).hex(),
+                                "norm_date": abstract_datetime(o.discovery_date)})
+        except Exception as e:
+            objs.append(None)
+            out["objs"].append({"error": exc_class(e)})
+    for (d, us), o in zip(pair, objs):
+        try:
+            r = _build_emd(c, [us, 0])
+            out["refs"].append({"id": r.id.hex(), "eq": None if o is None or c["eqdiff"]["carrier"] == "eqsubclass" else (o == r and hash(o) == hash(r))})
+        except Exception as e:
+            out["refs"].append({"error": exc_class(e)})
+    return out
 
 
 class _IntSub(int):
@@ -973,6 +1121,15 @@ def _impl_emd(c):
         except Exception as e:
             alts.append({"error": exc_class(e)})
     res["alts"] = alts
+    # memo probe: the same object built again after unrelated ones (the alts above) is the same object
+    try:
+        again = _build_emd(c, c["date"])
+        res["again"] = {"id": again.id.hex(), "manifest": git_objects.raw_extrinsic_metadata_git_object(again).hex(),
+                        "eq": again == o and hash(again) == hash(o)}
+    except Exception as e:
+        res["again"] = {"error": exc_class(e)}
+    if c.get("eqdiff"):
+        res["eqdiff"] = _eqdiff_run(c)
     res["routes"] = _emd_routes(c, o)
     if c.get("twin") and c["twin"][2] != c[c["twin"][0]]:
         try:
@@ -1044,6 +1201,13 @@ def impl_extid(c):
         return {"error": exc_class(ex)}
     res = {"id": e.id.hex(), "manifest": git_objects.extid_git_object(e).hex()}
     res["routes"] = _extid_routes(c, e)
+    try:
+        # memo probe: an unrelated ExtID in between, then the same one again
+        _mk_extid(dict(c, extid=(bytes.fromhex(c["extid"]) + b"x").hex(), version=c["version"] + 1))
+        again = _mk_extid(c)
+        res["again"] = {"id": again.id.hex(), "manifest": git_objects.extid_git_object(again).hex(), "eq": again == e and hash(again) == hash(e)}
+    except Exception as ex:
+        res["again"] = {"error": exc_class(ex)}
     if c.get("twin") and c["twin"][2] != c[c["twin"][0]]:
         try:
             e2 = _mk_extid(dict(c, **{c["twin"][0]: c["twin"][2]}))
@@ -1156,6 +1320,41 @@ def _routes_verdict(what, ires, c=None, us=None):
     return None
 
 
+def _again_verdict(what, ires):
+    a = ires.get("again")
+    if a is None:
+        return None
+    if "error" in a:
+        return "%s: building the same object a second time raised %s" % (what, a["error"])
+    if a["id"] != ires["id"] or a["manifest"] != ires["manifest"] or not a["eq"]:
+        return "%s: the same object built a second time (unrelated objects in between) has another id / manifest / is not equal" % what
+    return None
+
+
+def _eqdiff_verdict(c, ires):
+    """two datetimes equal as Python objects but different instants: each object is the object of ITS instant"""
+    r = ires.get("eqdiff")
+    if r is None or "skip" in r:
+        return None
+    e = c["eqdiff"]
+    what = "two datetimes that compare equal (%s%s, order %s)" % (e["carrier"], " " + e["zone"] if "zone" in e else "", e["order"])
+    for i, (us, o, ref) in enumerate(zip(r["us"], r["objs"], r["refs"])):
+        if "error" in o or "error" in ref:
+            return "%s: datetime #%d was rejected with %s" % (what, i, o.get("error", ref.get("error")))
+        want = emd_spec_manifest(c, us)
+        if bytes.fromhex(o["manifest"]) != want or o["id"] != hashlib.sha1(want).hexdigest():
+            return ("%s: the object built from datetime #%d (instant %d us) has not the documented manifest / id of its instant"
+                    % (what, i, us))
+        if o["norm_date"] != [us - us % 10**6, 0]:
+            return "%s: datetime #%d is not normalised to its own UTC second" % (what, i)
+        if o["id"] != ref["id"] or ref["eq"] is False:
+            return "%s: the object built from datetime #%d differs from the same instant written in UTC" % (what, i)
+    if r["us"][0] // 10**6 != r["us"][1] // 10**6 and \
+            (r["objs"][0]["manifest"] == r["objs"][1]["manifest"] or r["objs"][0]["id"] == r["objs"][1]["id"]):
+        return "%s: two different UTC seconds share a manifest / an id" % what
+    return None
+
+
 def _twin_verdict(what, c, ires, spec):
     """the value of one field rewritten in another Unicode normalisation form is another value: another (documented) manifest,
     another id, an unequal object - nothing normalises text on the way to the manifest"""
@@ -1193,7 +1392,7 @@ def oracle_extid(c, ires, mres):
         return "ExtID manifest is not the documented header list"
     if ires["id_from_dict"] != ires["id"]:
         return "ExtID id differs between constructor and from_dict"
-    why = _routes_verdict("ExtID", ires) or _twin_verdict("ExtID", c, ires, extid_spec_manifest)
+    why = _again_verdict("ExtID", ires) or _routes_verdict("ExtID", ires) or _twin_verdict("ExtID", c, ires, extid_spec_manifest)
     if why:
         return why
     # optional lines exactly when set: the keys at the start of the (non-continuation) lines
@@ -1246,7 +1445,7 @@ def oracle_emd(c, ires, mres):
         return "the same object gets another id / manifest when the machine's local zone is %s instead of %s" % (c["tz2"], c.get("tz"))
     if ires["id_variant"] != ires["id"]:
         return "authority.metadata / fetcher.metadata influence the id"
-    why = _routes_verdict("metadata object", ires, c, us) or _twin_verdict("metadata object", c, ires, lambda d: emd_spec_manifest(d, us))
+    why = _again_verdict("metadata object", ires) or _eqdiff_verdict(c, ires) or _routes_verdict("metadata object", ires, c, us) or _twin_verdict("metadata object", c, ires, lambda d: emd_spec_manifest(d, us))
     if why:
         return why
     if ires["norm_date"] != [us - us % 10**6, 0]:
